@@ -26,11 +26,15 @@ API, parameterised by an arbitrary schedule of (bytes presented, buffer size, gi
 theorems `C01_exchange_any`, `C01_exchange_outcome`, `C01_exchange_independent`: every schedule that
 completes the exchange produces the one outcome `SendSpec` / `recvSpec`, consumes exactly the response
 message (plus the interim `100`), and ends in the state the status dictates; `C01_recv_live` /
-`C01_exchange_live`: once everything has arrived no schedule can wedge the flow.
+`C01_exchange_live`: once everything has arrived no schedule can wedge the flow. Every theorem quantifies
+over the schedules whose windows are *safe* for the response head (`Head.safeWin`): all schedules when the
+fallback is absent or the head is not a 3xx with `Location`; with the fallback (the code as it is) and a
+redirect, all schedules in which no window ends inside the head after a complete `Location` line — exactly
+the schedules the property itself assigns to C05 (finding D10; `call_prefix_before_location` shows every
+earlier window is harmless).
 
 What the composed theorems do **not** cover (the claim stays `partial`; these are decided by the
-correspondence and the cross-schedule oracle on the implementation): malformed streams,
-3xx heads with `Location` under the partial-redirect fallback (finding D10, owned by C05), and — for
+correspondence and the cross-schedule oracle on the implementation): malformed streams, and — for
 redirect chains — the composition itself: `C01_follow_setup` shows each hop is again a covered start and
 `C01_pipeline` the hand-over of the stream position, the chain as one run is not stated. Close-delimited
 response bodies are covered when nothing follows them on the connection (`b0.isClose → tail = []`: the
@@ -82,24 +86,24 @@ any bytes `tail` of a next message. Close-delimited bodies have no end on the wi
     than the response message; the body delivered so far is a prefix of the payload; the head handed out
     is the parsed `H` or not yet there; and a run that is not complete is still in a receive state. -/
 theorem C01_recv_any (hack : Bool) (H : Head) (b0 : BPos) (tail : Bytes) (f0 : Flow) (S : RecvSetup hack H b0 f0)
-    (htail : b0.isClose = true → tail = []) (σ : List IoStep) :
+    (htail : b0.isClose = true → tail = []) (σ : List IoStep) (hσ : ∀ s ∈ σ, H.safeWin hack s.m) :
     (recvRun hack (H.enc ++ b0.enc ++ tail) f0 σ).2.faults = 0 ∧
     (recvRun hack (H.enc ++ b0.enc ++ tail) f0 σ).2.consumed ≤ H.enc.length + b0.enc.length ∧
     (recvRun hack (H.enc ++ b0.enc ++ tail) f0 σ).2.body <+: b0.payload ∧
     ((recvRun hack (H.enc ++ b0.enc ++ tail) f0 σ).2.head = none ∨
      (recvRun hack (H.enc ++ b0.enc ++ tail) f0 σ).2.head = some H.parsed) := by
-  obtain ⟨h1, h2, h3, h4, _⟩ := recv_safe_of_inv H b0 tail f0 _ _ S.hst (recv_run_inv hack H b0 tail f0 S htail σ)
+  obtain ⟨h1, h2, h3, h4, _⟩ := recv_safe_of_inv H b0 tail f0 _ _ S.hst (recv_run_inv hack H b0 tail f0 S htail σ hσ)
   exact ⟨h1, h2, h3, h4⟩
 
 /-- **C01 (receive side, outcome).** Every schedule that completes the receive side produces the one
     outcome `recvSpec`: exactly the response message consumed (the next message untouched), the parsed
     head, the whole payload, no fault — and the successor state the status dictates. -/
 theorem C01_recv_outcome (hack : Bool) (H : Head) (b0 : BPos) (tail : Bytes) (f0 : Flow) (S : RecvSetup hack H b0 f0)
-    (htail : b0.isClose = true → tail = []) (σ : List IoStep) (hd : recvDone (recvRun hack (H.enc ++ b0.enc ++ tail) f0 σ).1 = true) :
+    (htail : b0.isClose = true → tail = []) (σ : List IoStep) (hσ : ∀ s ∈ σ, H.safeWin hack s.m) (hd : recvDone (recvRun hack (H.enc ++ b0.enc ++ tail) f0 σ).1 = true) :
     (recvRun hack (H.enc ++ b0.enc ++ tail) f0 σ).2 = recvSpec H b0 ∧
     (recvRun hack (H.enc ++ b0.enc ++ tail) f0 σ).1.st = terminalSt H ∧
     (H.enc ++ b0.enc ++ tail).drop (recvRun hack (H.enc ++ b0.enc ++ tail) f0 σ).2.consumed = tail := by
-  obtain ⟨h1, h2⟩ := recvSpec_of_done H b0 tail f0 _ _ S.hst (recv_run_inv hack H b0 tail f0 S htail σ) hd
+  obtain ⟨h1, h2⟩ := recvSpec_of_done H b0 tail f0 _ _ S.hst (recv_run_inv hack H b0 tail f0 S htail σ hσ) hd
   refine ⟨h1, h2, ?_⟩
   rw [h1]
   show (H.enc ++ b0.enc ++ tail).drop (H.enc.length + b0.enc.length) = tail
@@ -109,24 +113,25 @@ theorem C01_recv_outcome (hack : Bool) (H : Head) (b0 : BPos) (tail : Bytes) (f0
     whatever the buffer sizes — observe the same thing and end in the same state. -/
 theorem C01_recv_independent (hack : Bool) (H : Head) (b0 : BPos) (tail : Bytes) (f0 : Flow) (S : RecvSetup hack H b0 f0)
     (htail : b0.isClose = true → tail = []) (σ₁ σ₂ : List IoStep)
+    (hσ₁ : ∀ s ∈ σ₁, H.safeWin hack s.m) (hσ₂ : ∀ s ∈ σ₂, H.safeWin hack s.m)
     (h1 : recvDone (recvRun hack (H.enc ++ b0.enc ++ tail) f0 σ₁).1 = true)
     (h2 : recvDone (recvRun hack (H.enc ++ b0.enc ++ tail) f0 σ₂).1 = true) :
     (recvRun hack (H.enc ++ b0.enc ++ tail) f0 σ₁).2 = (recvRun hack (H.enc ++ b0.enc ++ tail) f0 σ₂).2 ∧
     (recvRun hack (H.enc ++ b0.enc ++ tail) f0 σ₁).1.st = (recvRun hack (H.enc ++ b0.enc ++ tail) f0 σ₂).1.st := by
-  obtain ⟨a1, a2, _⟩ := C01_recv_outcome hack H b0 tail f0 S htail σ₁ h1
-  obtain ⟨b1, b2, _⟩ := C01_recv_outcome hack H b0 tail f0 S htail σ₂ h2
+  obtain ⟨a1, a2, _⟩ := C01_recv_outcome hack H b0 tail f0 S htail σ₁ hσ₁ h1
+  obtain ⟨b1, b2, _⟩ := C01_recv_outcome hack H b0 tail f0 S htail σ₂ hσ₂ h2
   exact ⟨by rw [a1, b1], by rw [a2, b2]⟩
 
 /-- **C01 (receive side, completion).** After any schedule whatsoever, once the whole message has
     arrived, `|message| + 2` further calls with at least one byte of output space complete the receive
     side: no schedule can wedge the flow. -/
 theorem C01_recv_live (hack : Bool) (H : Head) (b0 : BPos) (tail : Bytes) (f0 : Flow) (S : RecvSetup hack H b0 f0)
-    (htail : b0.isClose = true → tail = []) (σ full : List IoStep) (hfull : ∀ s ∈ full, H.enc.length + b0.enc.length ≤ s.m ∧ 1 ≤ s.cap)
+    (htail : b0.isClose = true → tail = []) (σ full : List IoStep) (hσ : ∀ s ∈ σ, H.safeWin hack s.m) (hfull : ∀ s ∈ full, H.enc.length + b0.enc.length ≤ s.m ∧ 1 ≤ s.cap)
     (hlen : H.enc.length + b0.enc.length + 2 ≤ full.length) :
     recvDone (recvRun hack (H.enc ++ b0.enc ++ tail) f0 (σ ++ full)).1 = true := by
   unfold recvRun
   rw [List.foldl_append]
-  have hinv := recv_run_inv hack H b0 tail f0 S htail σ
+  have hinv := recv_run_inv hack H b0 tail f0 S htail σ hσ
   unfold recvRun at hinv
   refine recv_live_aux hack H b0 tail f0 S (H.enc.length + b0.enc.length + 1) _ hinv ?_ full hfull hlen
   right
@@ -151,7 +156,6 @@ theorem xRespOk : RespOk true xHead xBody .get where
   hc := by decide +kernel
   h100 := by decide +kernel
   hn := by intro f hf; simp [xHead] at hf; subst hf; simp [xField]
-  hsafe := fun _ => Or.inl (by decide +kernel)
   hb := trivial
   hframe := isLen5_eq _ (by decide +kernel)
 
@@ -193,14 +197,14 @@ theorem pend_safe (f0 : Flow) (pre : Bytes) (aw : Bool) (o : RecvObs) (h : Pend 
     there is; and the receive side is within its bounds (nothing consumed beyond the interim response and
     the message, body a prefix of the payload, no fault). -/
 theorem C01_exchange_any (hack : Bool) (f0 : Flow) (r : AReq) (wr0 : BodyWriter) (P : Bytes) (I H : Head) (b0 : BPos)
-    (tail pre : Bytes) (X : XSetup hack f0 r wr0 P I H b0 pre) (htail : b0.isClose = true → tail = []) (σ : List IoStep) :
+    (tail pre : Bytes) (X : XSetup hack f0 r wr0 P I H b0 pre) (htail : b0.isClose = true → tail = []) (σ : List IoStep) (hσ : ∀ s ∈ σ, H.safeWin hack s.m) :
     ((xRun hack P (pre ++ (H.enc ++ b0.enc ++ tail)) f0 σ).2.1.wire <+: renderHead r ∨
       ∃ bw, (xRun hack P (pre ++ (H.enc ++ b0.enc ++ tail)) f0 σ).2.1.wire = renderHead r ++ bw) ∧
     (xRun hack P (pre ++ (H.enc ++ b0.enc ++ tail)) f0 σ).2.1.off ≤ P.length ∧
     (xRun hack P (pre ++ (H.enc ++ b0.enc ++ tail)) f0 σ).2.2.faults = 0 ∧
     (xRun hack P (pre ++ (H.enc ++ b0.enc ++ tail)) f0 σ).2.2.consumed ≤ pre.length + (H.enc.length + b0.enc.length) ∧
     (xRun hack P (pre ++ (H.enc ++ b0.enc ++ tail)) f0 σ).2.2.body <+: b0.payload := by
-  rcases x_run_inv hack f0 r wr0 P I H b0 tail pre X htail σ with
+  rcases x_run_inv hack f0 r wr0 P I H b0 tail pre X htail σ hσ with
     ⟨hAB, ho⟩ | ⟨_, _, hA, hp⟩ | ⟨hC, hp⟩ | ⟨_, _, _, _, ho, _, _, hspec, hoff⟩ | ⟨hw, hoff, f1, o', S, hsh, hri⟩
   · have hw : (xRun hack P (pre ++ (H.enc ++ b0.enc ++ tail)) f0 σ).2.1.wire <+: renderHead r ∧
         (xRun hack P (pre ++ (H.enc ++ b0.enc ++ tail)) f0 σ).2.1.off = 0 := by
@@ -233,13 +237,13 @@ theorem C01_exchange_any (hack : Bool) (f0 : Flow) (r : AReq) (wr0 : BodyWriter)
     response payload; and has ended in the state the status dictates. -/
 theorem C01_exchange_outcome (hack : Bool) (f0 : Flow) (r : AReq) (wr0 : BodyWriter) (P : Bytes) (I H : Head) (b0 : BPos)
     (tail pre : Bytes) (X : XSetup hack f0 r wr0 P I H b0 pre) (htail : b0.isClose = true → tail = []) (σ : List IoStep)
-    (hd : recvDone (xRun hack P (pre ++ (H.enc ++ b0.enc ++ tail)) f0 σ).1 = true) :
+    (hσ : ∀ s ∈ σ, H.safeWin hack s.m) (hd : recvDone (xRun hack P (pre ++ (H.enc ++ b0.enc ++ tail)) f0 σ).1 = true) :
     SendSpec r wr0 P (xRun hack P (pre ++ (H.enc ++ b0.enc ++ tail)) f0 σ).2.1.wire ∧
     (xRun hack P (pre ++ (H.enc ++ b0.enc ++ tail)) f0 σ).2.1.off = P.length ∧
     (xRun hack P (pre ++ (H.enc ++ b0.enc ++ tail)) f0 σ).2.2 = (recvSpec H b0).shift pre.length ∧
     (xRun hack P (pre ++ (H.enc ++ b0.enc ++ tail)) f0 σ).1.st = terminalSt H ∧
     (pre ++ (H.enc ++ b0.enc ++ tail)).drop (xRun hack P (pre ++ (H.enc ++ b0.enc ++ tail)) f0 σ).2.2.consumed = tail := by
-  rcases x_run_inv hack f0 r wr0 P I H b0 tail pre X htail σ with
+  rcases x_run_inv hack f0 r wr0 P I H b0 tail pre X htail σ hσ with
     ⟨hAB, _⟩ | ⟨hst, _⟩ | ⟨hC, _⟩ | ⟨hst, _⟩ | ⟨hw, hoff, f1, o', S, hsh, hri⟩
   · have hst : (xRun hack P (pre ++ (H.enc ++ b0.enc ++ tail)) f0 σ).1.st = .prepare ∨
         (xRun hack P (pre ++ (H.enc ++ b0.enc ++ tail)) f0 σ).1.st = .sendRequest := by
@@ -271,14 +275,15 @@ theorem SendSpec_unique (r : AReq) (wr0 : BodyWriter) (P w₁ w₂ : Bytes) (hm 
     (For a chunked request body the chunk boundaries follow the buffers; the payload coded is the same.) -/
 theorem C01_exchange_independent (hack : Bool) (f0 : Flow) (r : AReq) (wr0 : BodyWriter) (P : Bytes) (I H : Head) (b0 : BPos)
     (tail pre : Bytes) (X : XSetup hack f0 r wr0 P I H b0 pre) (htail : b0.isClose = true → tail = []) (σ₁ σ₂ : List IoStep)
+    (hσ₁ : ∀ s ∈ σ₁, H.safeWin hack s.m) (hσ₂ : ∀ s ∈ σ₂, H.safeWin hack s.m)
     (h1 : recvDone (xRun hack P (pre ++ (H.enc ++ b0.enc ++ tail)) f0 σ₁).1 = true)
     (h2 : recvDone (xRun hack P (pre ++ (H.enc ++ b0.enc ++ tail)) f0 σ₂).1 = true) :
     (xRun hack P (pre ++ (H.enc ++ b0.enc ++ tail)) f0 σ₁).2.2 = (xRun hack P (pre ++ (H.enc ++ b0.enc ++ tail)) f0 σ₂).2.2 ∧
     (xRun hack P (pre ++ (H.enc ++ b0.enc ++ tail)) f0 σ₁).1.st = (xRun hack P (pre ++ (H.enc ++ b0.enc ++ tail)) f0 σ₂).1.st ∧
     (wr0.mode ≠ .chunked →
       (xRun hack P (pre ++ (H.enc ++ b0.enc ++ tail)) f0 σ₁).2.1 = (xRun hack P (pre ++ (H.enc ++ b0.enc ++ tail)) f0 σ₂).2.1) := by
-  obtain ⟨a1, a2, a3, a4, _⟩ := C01_exchange_outcome hack f0 r wr0 P I H b0 tail pre X htail σ₁ h1
-  obtain ⟨b1, b2, b3, b4, _⟩ := C01_exchange_outcome hack f0 r wr0 P I H b0 tail pre X htail σ₂ h2
+  obtain ⟨a1, a2, a3, a4, _⟩ := C01_exchange_outcome hack f0 r wr0 P I H b0 tail pre X htail σ₁ hσ₁ h1
+  obtain ⟨b1, b2, b3, b4, _⟩ := C01_exchange_outcome hack f0 r wr0 P I H b0 tail pre X htail σ₂ hσ₂ h2
   refine ⟨by rw [a3, b3], by rw [a4, b4], fun hm => ?_⟩
   have hw := SendSpec_unique r wr0 P _ _ hm a1 b1
   cases hx : (xRun hack P (pre ++ (H.enc ++ b0.enc ++ tail)) f0 σ₁).2.1 with
@@ -379,7 +384,6 @@ theorem xRespOkC : RespOk true xHeadC xBodyC .get where
   hc := by decide +kernel
   h100 := by decide +kernel
   hn := by intro f hf; simp [xHeadC] at hf
-  hsafe := fun _ => Or.inl (by decide +kernel)
   hb := trivial
   hframe := isCloseR_eq _ (by decide +kernel)
 
@@ -403,13 +407,13 @@ def xStreamC : Bytes := xHeadC.enc ++ xBodyC.enc
     bytes), a bounded number of further calls (head lines + payload bytes + server bytes + 9) completes the
     exchange: no schedule can wedge the flow, on either side. -/
 theorem C01_exchange_live (hack : Bool) (f0 : Flow) (r : AReq) (wr0 : BodyWriter) (P : Bytes) (I H : Head) (b0 : BPos)
-    (tail pre : Bytes) (X : XSetup hack f0 r wr0 P I H b0 pre) (htail : b0.isClose = true → tail = []) (σ full : List IoStep)
+    (tail pre : Bytes) (X : XSetup hack f0 r wr0 P I H b0 pre) (htail : b0.isClose = true → tail = []) (σ full : List IoStep) (hσ : ∀ s ∈ σ, H.safeWin hack s.m)
     (hfull : ∀ s ∈ full, s.full r (pre.length + (H.enc.length + b0.enc.length)))
     (hlen : (headUnits r).length + P.length + (pre.length + (H.enc.length + b0.enc.length)) + 9 ≤ full.length) :
     recvDone (xRun hack P (pre ++ (H.enc ++ b0.enc ++ tail)) f0 (σ ++ full)).1 = true := by
   unfold xRun
   rw [List.foldl_append]
-  have hinv := x_run_inv hack f0 r wr0 P I H b0 tail pre X htail σ
+  have hinv := x_run_inv hack f0 r wr0 P I H b0 tail pre X htail σ hσ
   unfold xRun at hinv
   exact x_live_aux hack f0 r wr0 P I H b0 tail pre X htail _ _ hinv (Or.inr (xMeasure_le r P _ _)) full hfull (by omega)
 
@@ -460,7 +464,7 @@ theorem C01_pipeline (hack : Bool)
     (f₂ : Flow) (r₂ : AReq) (w₂ : BodyWriter) (P₂ : Bytes) (I₂ H₂ : Head) (b₂ : BPos) (pre₂ tail : Bytes)
     (X₁ : XSetup hack f₁ r₁ w₁ P₁ I₁ H₁ b₁ pre₁) (X₂ : XSetup hack f₂ r₂ w₂ P₂ I₂ H₂ b₂ pre₂)
     (hc₁ : b₁.isClose = false) (htail : b₂.isClose = true → tail = [])
-    (σ₁ σ₂ : List IoStep)
+    (σ₁ σ₂ : List IoStep) (hσ₁ : ∀ s ∈ σ₁, H₁.safeWin hack s.m) (hσ₂ : ∀ s ∈ σ₂, H₂.safeWin hack s.m)
     (hd₁ : recvDone (xRun hack P₁ (pre₁ ++ (H₁.enc ++ b₁.enc ++ (pre₂ ++ (H₂.enc ++ b₂.enc ++ tail)))) f₁ σ₁).1 = true)
     (hd₂ : recvDone (xRun hack P₂
         ((pre₁ ++ (H₁.enc ++ b₁.enc ++ (pre₂ ++ (H₂.enc ++ b₂.enc ++ tail)))).drop
@@ -469,9 +473,9 @@ theorem C01_pipeline (hack : Bool)
         ((pre₁ ++ (H₁.enc ++ b₁.enc ++ (pre₂ ++ (H₂.enc ++ b₂.enc ++ tail)))).drop
           (xRun hack P₁ (pre₁ ++ (H₁.enc ++ b₁.enc ++ (pre₂ ++ (H₂.enc ++ b₂.enc ++ tail)))) f₁ σ₁).2.2.consumed) f₂ σ₂).2.2
       = (recvSpec H₂ b₂).shift pre₂.length := by
-  obtain ⟨_, _, _, _, hrest⟩ := C01_exchange_outcome hack f₁ r₁ w₁ P₁ I₁ H₁ b₁ _ pre₁ X₁ (by rw [hc₁]; intro h; cases h) σ₁ hd₁
+  obtain ⟨_, _, _, _, hrest⟩ := C01_exchange_outcome hack f₁ r₁ w₁ P₁ I₁ H₁ b₁ _ pre₁ X₁ (by rw [hc₁]; intro h; cases h) σ₁ hσ₁ hd₁
   rw [hrest] at hd₂ ⊢
-  exact (C01_exchange_outcome hack f₂ r₂ w₂ P₂ I₂ H₂ b₂ tail pre₂ X₂ htail σ₂ hd₂).2.2.1
+  exact (C01_exchange_outcome hack f₂ r₂ w₂ P₂ I₂ H₂ b₂ tail pre₂ X₂ htail σ₂ hσ₂ hd₂).2.2.1
 
 /-! ## Refused `Expect` (Proofs/ExchangeRefuse.lean): `C01_refused_outcome`, `C01_refused_independent` -/
 
@@ -490,7 +494,6 @@ theorem xRespOk403 : RespOk true xHead403 xBody0 .post where
   hc := by decide +kernel
   h100 := by decide +kernel
   hn := by intro f hf; simp [xHead403] at hf; subst hf; simp [xField0]
-  hsafe := fun _ => Or.inl (by decide +kernel)
   hb := trivial
   hframe := isLen0_eq _ (by decide +kernel)
 
@@ -508,3 +511,38 @@ def xStream403 : Bytes := xHead403.enc ++ xBody0.enc ++ xTail
 #guard (xRun true xPayload xStream403 xPostEx xEarly).2.1.off == 3      -- gave up: the body went out
 #guard (xRun true xPayload xStream403 xPostEx xHuge).2.1.off == 0       -- looked first: refused, no body
 #guard (xRun true xPayload xStream403 xPostEx xHuge).1.closeReasons.contains .not100
+
+/-- non-vacuity for a redirect response under the fallback: `302` with `Location`; windows that hold the
+    whole head, or end before the end of the Location line, are safe — a schedule of such windows completes
+    the exchange in the `Redirect` state -/
+def xFieldLoc : Field := { name := [76,111,99,97,116,105,111,110], pre := [32], value := [47,110], post := [] }
+def xHead302 : Head := { ver := 1, d1 := 51, d2 := 48, d3 := 50, reason := some [70], fields := [xField0, xFieldLoc] }
+theorem xRespOk302 : RespOk true xHead302 xBody0 .get where
+  hw := Head.wf_of_wfb _ (by decide +kernel)
+  hs := by decide +kernel
+  hc := by decide +kernel
+  h100 := by decide +kernel
+  hn := by intro f hf; simp [xHead302] at hf; rcases hf with rfl | rfl <;> simp [xField0, xFieldLoc]
+  hb := trivial
+  hframe := isLen0_eq _ (by decide +kernel)
+
+/-- windows of at most 30 bytes end before the end of the Location line (status line 17 + first field 19 +
+    Location line 14 bytes), windows of 1000 bytes hold the whole head -/
+def xSafe302 : List IoStep := [{ m := 0, cap := 64 }, { m := 20, cap := 64 }, { m := 30, cap := 64 }, { m := 1000, cap := 64 }, { m := 1000, cap := 64 }, { m := 1000, cap := 64 }]
+theorem xSafe302_ok : ∀ s ∈ xSafe302, xHead302.safeWin true s.m := by
+  have hsmall : ∀ m, m < 49 → xHead302.safeWin true m := by
+    intro m hm
+    refine Or.inr (Or.inr (Or.inr ⟨[xField0], xFieldLoc, [], rfl, by decide +kernel, ?_⟩))
+    have : xHead302.statusLine.length + (encFields [xField0]).length + xFieldLoc.enc.length = 49 := by decide +kernel
+    omega
+  intro s hs
+  simp [xSafe302] at hs
+  rcases hs with rfl | rfl | rfl | rfl
+  · exact hsmall 0 (by omega)
+  · exact hsmall 20 (by omega)
+  · exact hsmall 30 (by omega)
+  · exact Head.safeWin_full _ _ _ (by decide +kernel)
+
+#guard recvDone (xRun true [] (xHead302.enc ++ xBody0.enc ++ xTail) xNew xSafe302).1
+#guard (xRun true [] (xHead302.enc ++ xBody0.enc ++ xTail) xNew xSafe302).1.st == .redirect
+#guard (xRun true [] (xHead302.enc ++ xBody0.enc ++ xTail) xNew xSafe302).2.2 == recvSpec xHead302 xBody0
